@@ -43,6 +43,7 @@ static void gen_signal(link_t *L, rng_t *r, float **buf, long pos, long n, doubl
   (void)pos;
 }
 
+int g_bs0_patch=0;   /* if 6..13: rewrite the short-blocksize exponent of the id header (synthetic small-block stream), restamp granule positions */
 link_t *link_make(int id,int ch,long rate,int q100,long nsamp,unsigned seed,int managed,long brmax,long brnom,long brmin,int sigkind){
   link_t *L=calloc(1,sizeof(*L));
   L->id=id; L->ch=ch; L->rate=rate; L->q100=q100; L->nsamp=nsamp; L->seed=seed; L->managed=managed;
@@ -80,6 +81,14 @@ link_t *link_make(int id,int ch,long rate,int q100,long nsamp,unsigned seed,int 
     if(n<=0 && !eos){ /* encoder produced no eos?  should not happen */ break; }
   }
   vorbis_block_clear(&vb); vorbis_dsp_clear(&vd); vorbis_comment_clear(&vc); vorbis_info_clear(&vi);
+  if(g_bs0_patch>=6 && g_bs0_patch<=13){
+    /* id header byte 28: low nibble = log2(bs0), high nibble = log2(bs1) */
+    unsigned char *h=L->pk[0].data; h[28]=(unsigned char)((h[28]&0xf0)|g_bs0_patch);
+    L->bs0=1L<<g_bs0_patch;
+    /* restamp granule positions so that the stream is self-consistent: gp = end of the packet's sample range, no end trim */
+    long P=0; int na0=L->npk-3;
+    for(int k=0;k<na0;k++){ if(k>0){ long bp=L->pk[3+k-1].W?L->bs1:L->bs0, bk=L->pk[3+k].W?L->bs1:L->bs0; P+=(bp+bk)/4; } L->pk[3+k].gp=P; }
+  }
   /* packet sample ranges */
   int na=L->npk-3; L->pstart=calloc(na+2,sizeof(long));
   long P=0;
